@@ -134,7 +134,106 @@ def judge(ctx, q, data, oob, info):
         ctx.sample({"in": witness["query"], "out": text, "oob": oob})
 
 
+ODD_NAMES = ["arg_\u1369", "arg_\u0967", "arg_\u0663", "arg_\u19da", "arg_01", "arg_", "arg_1_", "arg_99999999999999999999", "arg_7", "\u03bc", "arg_\u1369\u136a", "Arg_3", "arg__2"]
+
+
+def odd_parameter_name(rnd, q):
+    """one lambda parameter of the query takes a name no generator of names would choose (an alpha-renaming: meaning unchanged)"""
+    params = sorted({a.arg for n in ast.walk(q) if isinstance(n, ast.Lambda) for a in n.args.args})
+    used = {n.id for n in ast.walk(q) if isinstance(n, ast.Name)} | set(params)
+    new = rnd.choice(ODD_NAMES)
+    if not params or new in used:
+        return None
+    old = rnd.choice(params)
+    for n in ast.walk(q):
+        if isinstance(n, ast.Name) and n.id == old:
+            n.id = new
+        elif isinstance(n, ast.arg) and n.arg == old:
+            n.arg = new
+    return new
+
+
+class _NoCopy:
+    """what real dataset objects hold: things nobody can copy or pickle"""
+
+    def __deepcopy__(self, memo):
+        raise TypeError("this connection cannot be copied")
+
+    def __reduce_ex__(self, protocol):
+        raise TypeError("this connection cannot be pickled")
+
+
+REAL_STREAM_QUERIES = [
+    (lambda ds: ds.Select("lambda e: (e.met, e.jets)[0] * 2").Where("lambda v: v > 1"), False),
+    (lambda ds: ds.Select("lambda e: e.jets").Select("lambda js: js.Select(lambda j: j.pt)").Select("lambda pts: pts.Where(lambda p: p > 30).Count()"), False),
+    (lambda ds: ds.SelectMany("lambda e: e.jets.Select(lambda j: (j.pt, j.eta))").Select("lambda t: t[1]"), False),
+    (lambda ds: ds.Select("lambda e: {'a': e.x, 'b': e.y}").Select("lambda r: r.a + r['b']"), False),
+    (lambda ds: ds.Where("lambda e: e.x > 1").Where("lambda e: e.y > 2").Select("lambda e: (lambda a: a.x)(e)"), False),
+    (lambda ds: ds.Select("lambda e: (e.x, e.y)").Select("lambda t: t[2]"), True),
+    (lambda ds: ds.MetaData({"k": 1}).Select("lambda e: e.jets.First().pt").QMetaData({"t": 1}).AsROOTTTree("f.root", "t", ["pt"]), False),
+    (lambda ds: ds, False),
+]
+
+
+def real_streams(ctx):
+    """queries built through the API on dataset OBJECTS as real back ends have them - holding a lock, an open file, a thread, things
+    that refuse to be copied - whose root node carries the object; simplified the way a back end does it: visit(stream.query_ast)"""
+    import threading
+
+    from func_adl import EventDataset
+    from func_adl.ast.function_simplifier import FuncADLIndexError, simplify_chained_calls
+
+    def make(holding):
+        class DS(EventDataset):
+            def __init__(self):
+                super().__init__()
+                self.resource = holding()
+
+            async def execute_result_async(self, a, title=None):
+                return a
+
+        return DS()
+
+    holders = [("lock", threading.Lock), ("open-file", lambda: open(__file__)), ("generator", lambda: (i for i in range(3))), ("refuses-copies", _NoCopy),
+               ("thread-local", threading.local), ("nothing-special", dict)]
+    for hname, holding in holders:
+        for qi, (build, oob) in enumerate(REAL_STREAM_QUERIES):
+            ds = make(holding)
+            try:
+                s = build(ds)
+            except Exception as e:
+                ctx.count("harness:real-stream-not-built:" + type(e).__name__)
+                continue
+            ctx.case(f"real-stream|{hname}|{qi}", nontrivial=True)
+            ctx.count("real-streams-simplified")
+            witness = {"real_streams": True}
+            try:
+                out = simplify_chained_calls().visit(s.query_ast)
+            except FuncADLIndexError as e:
+                if not oob:
+                    ctx.violation("unexpected-FuncADLIndexError", f"query #{qi} built through the API on a dataset holding {hname}: {e}", witness)
+                continue
+            except Exception as e:
+                ctx.violation(f"exc:{type(e).__name__}@{astx.repo_frame(e, REPO)}", f"query #{qi} built through the API on a dataset object holding {hname}: {type(e).__name__}: {str(e)[:160]}", witness)
+                continue
+            if oob:
+                ctx.count("observation:out-of-range-index-not-reported-on-real-stream")
+            wf = astx.well_formed(out)
+            if wf:
+                ctx.violation("malformed-node:real-stream", f"{wf} | query #{qi} on a dataset holding {hname}", witness)
+                continue
+            try:
+                text = ast.unparse(out)
+                astx.parse_expr(text)
+            except Exception as e:
+                ctx.violation(f"unparse-failed:{type(e).__name__}", f"query #{qi} on a dataset holding {hname}: {e}", witness)
+            if hname == "open-file":
+                ds.resource.close()
+
+
 def shard_main(ctx):
+    if ctx.shard == 1 % ctx.nshards:
+        real_streams(ctx)
     if ctx.shard == 0:
         data = datasets(random.Random(5))
         for t in DIRECTED:
@@ -174,6 +273,10 @@ def shard_main(ctx):
         if astx.size(q) > 400:
             ctx.count("skipped:input-too-large")
             continue
+        if i % 6 == 5:
+            odd = odd_parameter_name(rnd, q)
+            if odd:
+                g.feat.add("odd-parameter-name")
         for f in g.feat:
             ctx.count("feature:" + f)
         try:
@@ -184,6 +287,9 @@ def shard_main(ctx):
 
 
 def replay(ctx, witness):
+    if witness.get("real_streams"):
+        real_streams(ctx)
+        return
     q = astx.parse_expr(witness["query"])
     if "Constant(-1)" in str(witness.get("info", {}).get("directed", "")):
         q.args[1].body.slice = astx.C(-1)
